@@ -44,6 +44,18 @@ def h2_casci():
 
 
 @cached
+def lih_casci():
+    """LiH CASCI(3 orbitals, 2 electrons) with one frozen core orbital: 2 up / 2 down electrons, 3 x 3 determinants built from 3 distinct
+    2x2 up and 3 distinct 2x2 down matrices (every distinct determinant is shared by three expansion terms)"""
+    from pyscf import gto, scf, mcscf
+    mol = gto.M(atom="Li 0. 0. 0.; H 0. 0. 3.0", basis="sto-3g", unit="bohr", verbose=0)
+    mf = scf.RHF(mol).run()
+    mc = mcscf.CASCI(mf, 3, 2)
+    mc.kernel()
+    return mol, mf, mc
+
+
+@cached
 def h_pbc():
     import pyscf.pbc.gto
     import pyscf.pbc.scf
